@@ -247,8 +247,9 @@ def gen_bqm_base(rng, small=False):
             kw["ninit"] = rng.randint(1, 4)
             kw["mismatch"] = rng.choice([None, None, None, 'drop', 'extra'])
             kw["init_form"] = rng.choice(['dicts', 'array'])
-            kw["init_vt"] = rng.choice(['same', 'same', 'other'])
-            kw["init_raw"] = rng.random() < 0.4
+            kw["init_vt"] = rng.choice(['same', 'other'])
+            kw["init_dtype"] = rng.choice(['int8', 'int16', 'int32', 'int64', 'float32', 'float64', 'bool', 'uint8', 'uint16', 'uint32'])
+            kw["init_raw"] = rng.random() < 0.5
             kw["init_seed"] = rng.randint(0, 2 ** 31)
     elif base == 'sa':
         kw["num_reads"] = rng.randint(1, 3)
@@ -261,9 +262,10 @@ def gen_bqm_base(rng, small=False):
         kw["isg"] = rng.choice(['random', 'tile', 'none'])
         kw["ninit"] = rng.randint(0, 5)
         kw["init_form"] = rng.choice(['dicts', 'array'])
-        kw["init_vt"] = rng.choice(['same', 'same', 'other'])
+        kw["init_vt"] = rng.choice(['same', 'other'])
         kw["init_seed"] = rng.randint(0, 2 ** 31)
-        kw["init_raw"] = rng.random() < 0.3
+        kw["init_dtype"] = rng.choice(['int8', 'int16', 'int32', 'int64', 'float32', 'float64', 'bool', 'uint8', 'uint16', 'uint32'])
+        kw["init_raw"] = rng.random() < 0.5
         if kw["isg"] == 'tile' and kw["ninit"] >= 2 and rng.random() < 0.6:
             kw["num_reads"] = kw["ninit"] + rng.randint(1, 2 * kw["ninit"])      # tiling with a remainder
         elif kw["ninit"] >= 2 and rng.random() < 0.3:
@@ -302,7 +304,47 @@ def gen_poly(rng, nmax=6, maxdeg=4, maxterms=7, entry='poly'):
         terms[t] = rng.dyadic(8, 1) if rng.random() > 0.1 else Fraction(0)
     if entry == 'hubo' and rng.random() < 0.3:
         terms[()] = rng.dyadic(8, 1)
-    return {"vartype": vt, "terms": [[[enc_label(x) for x in t], str(b)] for t, b in terms.items()]}
+    out = {"vartype": vt, "terms": [[[enc_label(x) for x in t], str(b)] for t, b in terms.items()]}
+    if entry in ('hising', 'hubo'):
+        # the user's dicts as written: the single-variable terms generated above go to h (hising); further
+        # keys of J / H may have any length incl. 0 (constant) and 1 (a second bias on a variable of h),
+        # repeat a variable, or spell an earlier monomial in another key order
+        raw = [[list(t), b] for t, b in terms.items()]
+        h_idx = [i for i, (t, _) in enumerate(raw) if len(t) == 1] if entry == 'hising' else []
+        h_keys = [enc_label(raw[i][0][0]) for i in h_idx]     # the FIRST single-variable term on each of these labels is h's
+        keys = {tuple(map(json_key, t)) for i, (t, _) in enumerate(raw) if i not in h_idx}
+        for _ in range(rng.choice([0, 0, 1, 2, 3])):
+            r = rng.random()
+            if r < 0.2:
+                t = []
+            elif r < 0.45:
+                t = [rng.choice(labels)]
+            elif r < 0.7 and raw:
+                t = list(rng.choice(raw)[0])
+                rng.shuffle(t)
+            else:
+                t = [rng.choice(labels) for _ in range(rng.randint(2, 4))]      # repeats allowed
+            k = tuple(map(json_key, t))
+            if k in keys:
+                continue
+            keys.add(k)
+            raw.append([t, rng.dyadic(8, 1)])
+        out["terms"] = [[[enc_label(x) for x in t], str(b)] for t, b in raw]
+        out["h_keys"] = h_keys
+    return out
+
+
+def effective_terms(terms, vt):
+    """the polynomial a list of raw terms denotes (x*x = x, s*s = 1, equal monomials added); used by
+    the GENERATOR only, to choose options (ignored terms, fixed variables, dyadic normalisation)"""
+    acc = {}
+    for t, b in terms:
+        if vt == 'SPIN':
+            key = frozenset(x for x in set(t) if t.count(x) % 2 == 1)
+        else:
+            key = frozenset(t)
+        acc[key] = acc.get(key, Fraction(0)) + Fraction(b)
+    return [(tuple(sorted(k)), b) for k, b in acc.items()]
 
 
 def is_pow2(fr):
@@ -430,7 +472,8 @@ def gen_case(rng, tier):
         # polynomial (scale before fix would change the terms; normalisation stays dyadic only when
         # scale is the outermost layer, so put it first)
         layers.sort(key=lambda l: 0 if l["t"] == 'scale' else 1)
-        terms = [(tuple(json_key(x) for x in t), Fraction(b)) for t, b in poly["terms"]]
+        terms = effective_terms([(tuple(json_key(x) for x in t), Fraction(b)) for t, b in poly["terms"]],
+                                poly["vartype"])
         for l in layers:
             if l["t"] == 'scale':
                 l.update(gen_scale_opts(rng, [(t, b) for t, b in terms]))
@@ -616,7 +659,14 @@ def make_initial_states(c, variables, vt, kw):
                     r.shuffle(perm)
                 init.append({order[i]: row[i] for i in perm})
         else:
-            init = (np.array(rows, dtype=np.int8), order)
+            # every dtype that can represent the values (bool / unsigned only for 0/1)
+            dts = ['int8', 'int16', 'int32', 'int64', 'float32', 'float64']
+            if ivt == 'BINARY':
+                dts += ['bool', 'uint8', 'uint16', 'uint32', 'uint8', 'bool']
+            dt = c.get("init_dtype")
+            if dt not in dts:
+                dt = dts[c["init_seed"] % len(dts)]
+            init = (np.array(rows, dtype=np.dtype(dt)), order)
         if raw:
             # raw samples-like: the vartype is inferred from the values, falling back to the bqm's
             flat = [x for row in rows for x in row]
@@ -629,7 +679,7 @@ def make_initial_states(c, variables, vt, kw):
             kw["initial_states"] = ss
             kw["_init_vt"] = ivt
             kw["_init_ls"] = list(ss.variables)
-            kw["_init_rows"] = np.asarray(ss.record.sample).tolist()
+            kw["_init_rows"] = [[int(x) for x in row] for row in np.asarray(ss.record.sample).tolist()]
 
 
 def make_bqm_base(c, variables, vt):
@@ -933,11 +983,15 @@ def run_poly(c):
     variables = []
     for t, _ in terms:
         for x in t:
+            T.idx(x)
+        # a variable that cancels inside a term (s*s = 1) is not a variable of the problem through that term
+        kept = [x for x in t if t.count(x) % 2 == 1] if vt == 'SPIN' else list(t)
+        for x in kept:
             if not any(x == y and type(x) is type(y) for y in variables):
                 variables.append(x)
-            T.idx(x)
     feats = {"kind": "poly", "entry": entry, "hoc": bool(c["hoc"]), "layers": "+".join(l["t"] for l in c["layers"]),
-             "has_const": any(len(t) == 0 for t, _ in terms), "base": c.get("base", "exactpoly")}
+             "has_const": any(len(t) == 0 for t, _ in terms), "base": c.get("base", "exactpoly"),
+             "raw_keys": any(len(set(map(repr, t))) != len(t) for t, _ in terms) or "h_keys" in c["poly"]}
     kw = {}
     bqm_rec = None
     if c["hoc"]:
@@ -977,8 +1031,17 @@ def run_poly(c):
         poly = dimod.BinaryPolynomial({t: float(b) for t, b in terms}, vt)
         call = lambda: top.sample_poly(poly, **kw)
     elif entry == 'hising':
-        h = {t[0]: float(b) for t, b in terms if len(t) == 1}
-        J = {t: float(b) for t, b in terms if len(t) != 1}
+        if "h_keys" in c["poly"]:
+            want = [dec_label(x) for x in c["poly"]["h_keys"]]
+            hk = set()
+            for i, (t, b) in enumerate(terms):
+                if len(t) == 1 and any(t[0] == w and type(t[0]) is type(w) for w in want) \
+                        and not any(terms[j][0] == t for j in hk):
+                    hk.add(i)
+        else:
+            hk = {i for i, (t, _) in enumerate(terms) if len(t) == 1}
+        h = {t[0]: float(b) for i, (t, b) in enumerate(terms) if i in hk}
+        J = {t: float(b) for i, (t, b) in enumerate(terms) if i not in hk}
         call = lambda: top.sample_hising(h, J, **kw)
     else:
         H = {t: float(b) for t, b in terms}
@@ -1026,7 +1089,7 @@ def run_poly(c):
     else:
         # what the outermost layer received must be the submitted polynomial
         cur = inps[0][0]
-        out_terms.append(f"(CComp (KFixed {hp} [] {hp_term(T, cur)}) {res_term(T, outs[0])} {res_term(T, outs[0])})")
+        out_terms.append(f"(CEntryPoly {cbool(vt == 'SPIN')} {hp} {hp_term(T, cur)})")
         for i, l in enumerate(c["layers"]):
             orig = hp_term(T, inps[i][0])
             sent = hp_term(T, inps[i + 1][0])
